@@ -6,6 +6,7 @@
   every pair the policy distinguishes comes out in the same relative order.
 -/
 import YkProofs.Sort
+import YkProofs.SortChildren
 namespace Yk.C19
 open Yk
 
@@ -63,5 +64,131 @@ theorem asks_remove (s : List AskKey) (key : String) (hs : sortedBy askBefore s 
 
 example : (stableSort qLessPrio [⟨"a", 1, 0, []⟩, ⟨"b", 3, 0, []⟩, ⟨"c", 1, 0, []⟩]).map (·.id) = ["b", "a", "c"] := by decide
 example : sortedBy askBefore (askInsert (askInsert [] ⟨"k1", 1, 5⟩) ⟨"k2", 2, 9⟩) = true := by decide
+
+/-! ### the children a parent queue offers: `Queue.sortQueues()` with `GetFairMaxResource()` per child
+
+`offeredSorted rootMax anc fair prio cs` models sortQueues of a parent whose ancestors below the root have the own
+maxima `anc` (top down, the parent last), over the children `cs` in the order the map iteration presented them: filter
+(not stopped, pending > 0), the parallel slice of `child.GetFairMaxResource()`, `fairMaxByQueue`, the stable sort.
+`ownLess` is the same comparator written on a child's own keys only. -/
+
+/-- The fair max chain, per resource type: a queue's own max wins for the types it names, every other type comes from
+    the value handed down by its parent … -/
+theorem fair_max_child_wins (limit own : Res) (hw : Res.wf own = true) (ho : own ≠ []) (hl : limit ≠ []) (k : String) :
+    (fairMaxMerge (some limit) (some own)).map (fun r => Res.get? r k) = some ((Res.get? own k).or (Res.get? limit k)) :=
+  fairMaxMerge_get? limit own hw ho hl k
+
+/-- … and a queue without own max, or below a parent that hands down nothing (no node registered yet), passes the
+    parent's value on unchanged: its own max is ignored. -/
+theorem fair_max_passed_on (limit own : ORes) (h : isEmpty own = true ∨ isEmpty limit = true) :
+    fairMaxMerge limit own = limit :=
+  fairMaxMerge_passes limit own h
+
+/-- Sharing is impossible: the fair max sortQueues hands to the comparator for a candidate `c` is
+    `fairMaxOf rootMax anc c.max` — a function of the ancestors' maxima and of `c`'s own max. Hence it is the same
+    whatever the siblings are (two arbitrary sibling lists `cs₁`, `cs₂`, any order) and wherever `c` stands. -/
+theorem fair_max_is_own (rootMax : ORes) (anc : List ORes) (cs₁ cs₂ : List Child)
+    (h₁ : (cs₁.map (·.name)).Nodup) (h₂ : (cs₂.map (·.name)).Nodup) (c : Child)
+    (hc₁ : c ∈ offeredCands cs₁) (hc₂ : c ∈ offeredCands cs₂) :
+    let pf := fairMaxChain rootMax anc
+    fairMaxByQueue (offeredCands cs₁) (fairMaxSlice pf (offeredCands cs₁)) c = fairMaxOf rootMax anc c.max ∧
+    fairMaxByQueue (offeredCands cs₂) (fairMaxSlice pf (offeredCands cs₂)) c = fairMaxOf rootMax anc c.max :=
+  ⟨fairMaxByQueue_slice _ _ (offeredCands_names_nodup cs₁ h₁) c hc₁, fairMaxByQueue_slice _ _ (offeredCands_names_nodup cs₂ h₂) c hc₂⟩
+
+/-- The statement has teeth: with ONE fair-max object shared by the siblings (every child merging its own max into the
+    same accumulator — `fairMaxSliceShared`, not the code) a child is compared using its sibling's maximum. -/
+theorem shared_fair_max_is_not_own :
+    ∃ (pf : ORes) (a b : Child),
+      fairMaxByQueue [a, b] (fairMaxSliceShared pf [a, b]) a ≠ fairMaxMerge pf a.max ∧
+      fairMaxByQueue [a, b] (fairMaxSlice pf [a, b]) a = fairMaxMerge pf a.max :=
+  ⟨some [("cpu", 100)], ⟨"a", some [("cpu", 10)], none, none, none, 0, false⟩, ⟨"b", some [("cpu", 50)], none, none, none, 0, false⟩,
+   by decide, by decide⟩
+
+/-- What is offered: exactly the children that are not stopped and have pending resources strictly greater than zero
+    (a draining child is still offered), each once. -/
+theorem offered_children (rootMax : ORes) (anc : List ORes) (fair prio : Bool) (cs : List Child) :
+    (offeredSorted rootMax anc fair prio cs).Perm (cs.filter (fun c => !c.stopped && strictlyGreaterThanZero c.pending)) :=
+  stableSort_perm _ _
+
+/-- Clause C19.children-own-fair-max. For EVERY set of siblings `cs` (distinct names) and two candidates `x`, `y` in it:
+    if the comparator on their own keys (allocated, guaranteed, own fair max, pending, priority — `ownLess` mentions
+    nothing else) puts `x` first, then `x` stands before `y` in what sortQueues returns. The siblings and the
+    presentation order do not appear in the condition. For the fair policies the pending tie-break must be an order
+    inside each group of equal priority and share (`PendingTieOrder`; see `pending_tiebreak_not_weak_order`). -/
+theorem children_order_own_keys (rootMax : ORes) (anc : List ORes) (fair prio : Bool) (cs : List Child)
+    (hnd : (cs.map (·.name)).Nodup) (hp : fair = true → PendingTieOrder rootMax anc (offeredCands cs))
+    (x y : Child) (hx : x ∈ offeredCands cs) (hy : y ∈ offeredCands cs) (hxy : ownLess rootMax anc fair prio x y = true) :
+    ∃ i j : Nat, i < j ∧ (offeredSorted rootMax anc fair prio cs)[i]? = some x ∧ (offeredSorted rootMax anc fair prio cs)[j]? = some y := by
+  obtain ⟨hperm, hs⟩ := offeredSorted_spec rootMax anc fair prio cs hnd hp
+  exact before_of_sorted _ _ hs x y (hperm.mem_iff.mpr hx) (hperm.mem_iff.mpr hy) hxy
+    ((ownLess_order_on rootMax anc fair prio (offeredCands cs) hp).1 x hx)
+
+/-- Presentation invariance lifted to sortQueues: two presentations of the same children (the map iterated in another
+    order) offer the same candidates, and neither result has an inversion with respect to the own-key comparator. -/
+theorem children_presentation_invariant (rootMax : ORes) (anc : List ORes) (fair prio : Bool) (cs₁ cs₂ : List Child)
+    (hperm : cs₁.Perm cs₂) (hnd : (cs₁.map (·.name)).Nodup) (hp : fair = true → PendingTieOrder rootMax anc (offeredCands cs₁)) :
+    (offeredSorted rootMax anc fair prio cs₁).Perm (offeredSorted rootMax anc fair prio cs₂) ∧
+    (∀ out ∈ [offeredSorted rootMax anc fair prio cs₁, offeredSorted rootMax anc fair prio cs₂],
+      ∀ (i j : Nat) (x y : Child), i < j → out[i]? = some y → out[j]? = some x → ownLess rootMax anc fair prio x y = false) := by
+  have hc : (offeredCands cs₁).Perm (offeredCands cs₂) := hperm.filter _
+  have hnd₂ : (cs₂.map (·.name)).Nodup := (hperm.map _).nodup_iff.mp hnd
+  have hp₂ : fair = true → PendingTieOrder rootMax anc (offeredCands cs₂) := fun h => pendingTieOrder_perm _ _ _ _ hc (hp h)
+  obtain ⟨p1, s1⟩ := offeredSorted_spec rootMax anc fair prio cs₁ hnd hp
+  obtain ⟨p2, s2⟩ := offeredSorted_spec rootMax anc fair prio cs₂ hnd₂ hp₂
+  refine ⟨p1.trans (hc.trans p2.symm), ?_⟩
+  intro out hout i j x y hij hy hx
+  have hsorted : sortedBy (ownLess rootMax anc fair prio) out = true := by
+    rcases List.mem_cons.mp hout with rfl | hout
+    · exact s1
+    · rcases List.mem_cons.mp hout with rfl | hout
+      · exact s2
+      · cases hout
+  exact pairwise_getElem? ((sortedBy_iff _ out).mp hsorted) i j y x hij hy hx
+
+/-- `ownLess` IS the comparator of the `queues` model (qLessPrioFair / qLessFairPrio / qLessPrio above) applied to the child
+    with the rank of its own share: for any ranking that orders the two shares as the exact fractions do. -/
+theorem own_keys_are_queue_keys (rootMax : ORes) (anc : List ORes) (rank : Child → Int) (l r : Child)
+    (hlt : rank l < rank r ↔ shareLt (ownShare rootMax anc l) (ownShare rootMax anc r) = true)
+    (heq : rank l = rank r ↔ shareEq (ownShare rootMax anc l) (ownShare rootMax anc r) = true) :
+    ownLess rootMax anc true true l r = qLessPrioFair (toQKey rank l) (toQKey rank r) ∧
+    ownLess rootMax anc true false l r = qLessFairPrio (toQKey rank l) (toQKey rank r) ∧
+    ownLess rootMax anc false true l r = qLessPrio (toQKey rank l) (toQKey rank r) :=
+  ownLess_eq_queue_model rootMax anc rank l r hlt heq
+
+/-- The hypothesis of the two theorems above holds whenever no two candidates agree on both priority and share
+    (`fair_queue_swo_without_tiebreak` lifted to children) … -/
+theorem pending_tie_order_without_tie (rootMax : ORes) (anc : List ORes) (L : List Child)
+    (hirr : ∀ x ∈ L, cPendingGt x x = false)
+    (h : ∀ x ∈ L, ∀ y ∈ L, x.prio = y.prio → shareEq (ownShare rootMax anc x) (ownShare rootMax anc y) = true → x = y) :
+    PendingTieOrder rootMax anc L :=
+  pendingTieOrder_of_no_tie rootMax anc L hirr h
+
+/-- … and is false in general, for children as for the `queues` candidates: three children with equal priority and share
+    whose pending vectors are (1,0), (0,1), (2,0) (known finding C19.queues-pending-tiebreak-not-weak-order). -/
+theorem children_tiebreak_not_weak_order :
+    ∃ a b c : Child, isSWO (ownLess none [] true true) [a, b, c] = false ∧
+      ownLess none [] true true a b = false ∧ ownLess none [] true true b a = false ∧
+      ownLess none [] true true b c = false ∧ ownLess none [] true true c b = false ∧ ownLess none [] true true c a = true :=
+  ⟨⟨"a", none, none, none, some [("cpu", 1), ("mem", 0)], 0, false⟩, ⟨"b", none, none, none, some [("cpu", 0), ("mem", 1)], 0, false⟩,
+   ⟨"c", none, none, none, some [("cpu", 2), ("mem", 0)], 0, false⟩, by decide⟩
+
+/-- … and without the fair policy nothing is assumed: by priority only, or (fifo, priority off) not sorted at all — the
+    candidates stay as the map iteration presented them. -/
+theorem children_unsorted (rootMax : ORes) (anc : List ORes) (cs : List Child) :
+    offeredSorted rootMax anc false false cs = offeredCands cs := by
+  have : childLess false false (fairMaxByQueue (offeredCands cs) (fairMaxSlice (fairMaxChain rootMax anc) (offeredCands cs))) = (fun _ _ => false) := by
+    funext l r; simp [childLess]
+  unfold offeredSorted
+  simp only [this]
+  exact stableSort_false _
+
+-- a parent with max {cpu 100} below a root with {cpu 200, mem 400}: child a (own max cpu 10) uses 5/10, child b (no own max) 20/100
+example : (offeredSorted (some [("cpu", 200), ("mem", 400)]) [some [("cpu", 100)]] true false
+    [⟨"a", some [("cpu", 10)], none, some [("cpu", 5)], some [("cpu", 1)], 0, false⟩,
+     ⟨"b", none, none, some [("cpu", 20)], some [("cpu", 1)], 0, false⟩,
+     ⟨"c", none, none, some [("cpu", 1)], some [("cpu", 1)], 0, true⟩,
+     ⟨"d", none, none, some [("cpu", 1)], none, 0, false⟩]).map (·.name) = ["b", "a"] := by decide
+example : fairMaxOf (some [("cpu", 200), ("mem", 400)]) [some [("cpu", 100)]] (some [("gpu", 2), ("cpu", 10)]) =
+    some [("cpu", 10), ("mem", 400), ("gpu", 2)] := by decide
 
 end Yk.C19
